@@ -42,6 +42,7 @@ type Case struct {
 	Stream  hx.Hex
 	Muts    []Mut
 	AllCuts bool // additionally try every truncation point of the (mutated) stream
+	Giant   int  // > 0: the stream is gen.GiantESL(Giant) (tens of MiB, rebuilt when the case runs); the mutations apply to it
 }
 
 var otherTypes = []guid.G{esl.SHA1, esl.SHA384, esl.SHA512, esl.RSA2048}
@@ -124,6 +125,14 @@ func genMut(t *rapid.T, stream []byte, lists []esl.List) Mut {
 }
 
 func genCase(t *rapid.T) Case {
+	if gen.Chance(t, "giant", 1, 1500) {
+		// tens of MiB, whole or cut somewhere: nothing is dropped silently at any size
+		c := Case{Giant: rapid.IntRange(1, 3).Draw(t, "giantkind")}
+		if rapid.Bool().Draw(t, "giantcut") {
+			c.Muts = []Mut{{Kind: "truncate", Cut: rapid.IntRange(1<<20, 40<<20).Draw(t, "cut")}}
+		}
+		return c
+	}
 	lists := gen.ESLStreamHuge(4).Draw(t, "stream")
 	// keep streams small so that every truncation point can be tried
 	for i := range lists {
@@ -389,6 +398,11 @@ func checkRoutes(in []byte, class string) error {
 }
 
 func checkCase(c Case) error {
+	if c.Giant > 0 {
+		c.Stream = esl.Encode(gen.GiantESL(c.Giant))
+		c.AllCuts = false
+		hx.Class(fmt.Sprintf("stream_of_%d_MiB", len(c.Stream)>>20))
+	}
 	in := apply(c.Stream, c.Muts)
 	class := "unmutated"
 	if len(c.Muts) > 0 {
